@@ -226,6 +226,7 @@ func checkC09(r *core.Run) {
 			r.OK("C09/WORKER", "C09/WORKER:"+fkey, prog.Pos(fn.Pos()), "worker touches vm.Processors only at procId and stores nothing else into the VM directly")
 		}
 	}
+	c09NonBlocking(r, prog)
 }
 
 
